@@ -11,8 +11,9 @@ check (Props level: "proof-partial, measured oracle").
 
 On the unchanged tree the full-strength statement is FALSE (finding F7): 4-byte
 integers with an XMM register select `MOVQ`, an 8-byte access.  `mov_ok_partial`
-carries the explicit guard `f7`; `mov_ok_fails_at_f7` proves the negation at the
-witness.
+carries the explicit guard `f7`; Props/C08Finding.lean (`mov_ok_fails_at_f7`)
+proves the negation at the witness — a separate module, so that a repaired
+table makes the finding stale instead of breaking this file.
 -/
 import AvoVerif.Model.Mov
 import AvoVerif.Gen.Mov
@@ -82,23 +83,6 @@ def tUint32 : TypeInfo := ⟨0x75696e74333206cab25ce1, 6, 4⟩   -- uint32: IsIn
 def rXMM : RegV := ⟨kindVector, 16, 513, 31, nV⟩
 def mFP : Operand := .mem (some ⟨kindPseudo, 0, 0, 0, 0⟩) none 0 0 0
 
-/-- **F7, proved at the witness**: `Store(xmm, uint32 result)` selects `MOVQ`,
-whose memory access is 8 bytes wide: the adjacent 4 bytes are overwritten. -/
-theorem mov_ok_fails_at_f7 :
-    tUint32 ∈ types ∧ rXMM ∈ regClasses ∧ mFP ∈ memReps ∧
-    loadStore rows .store mFP rXMM tUint32 = some oMOVQ ∧
-    (movSem oMOVQ rXMM).map (·.memWidth) = some 8 ∧
-    okAt .store tUint32 rXMM mFP = false ∧ okAt .load tUint32 rXMM mFP = false := by
-  decide +kernel
-
-/-- hence the full-strength statement does not hold on the unchanged tree -/
-theorem mov_ok_statement_false : ¬ mov_ok_statement := by
-  intro h
-  have w := mov_ok_fails_at_f7
-  have := h .store (by simp [dirs]) tUint32 w.1 rXMM w.2.1 mFP w.2.2.1
-  rw [w.2.2.2.2.2.1] at this
-  cases this
-
 /-- **Errors.** `Context.mov` takes the default branch (records the error, adds
 no instruction) exactly when no case matches. -/
 theorem mov_err (rs : List RRow) (a b : Operand) (an bn ti : Nat) :
@@ -156,6 +140,81 @@ theorem must_move_defined :
     (dirs.all fun d => types.all fun t => regClasses.all fun r => memReps.all fun m =>
       (!(mustMove F d t r) || (loadStore rows d m r t).isSome)) = true := by
   decide +kernel
+
+/-! ## One register per class represents the class -/
+
+/-- classes whose predicate looks at register kind and size (or at the shape of
+a memory reference) only -/
+def classLevel : OpClass → Bool
+  | .k | .m | .m8 | .m16 | .m32 | .m64 | .m128 | .m256 | .m512 | .r8 | .r16 | .r32 | .r64 | .xmm | .ymm | .zmm => true
+  | _ => false
+
+/-- the table only uses such predicates -/
+theorem mov_class_level :
+    rows.all (fun r => (match r.ca with | some c => classLevel c | none => false) &&
+                       (match r.cb with | some c => classLevel c | none => false)) = true := by
+  decide +kernel
+
+/-- a component address: `Mem` with a general-purpose or pseudo base and no index -/
+def plainAddr : Operand → Bool
+  | .mem b none _ _ _ => isMReg b
+  | _ => false
+
+theorem holds_reg_congr (c : OpClass) (h : classLevel c = true) (r r' : RegV)
+    (hk : r.kind = r'.kind) (hs : r.size = r'.size) : c.holds (.reg r) = c.holds (.reg r') := by
+  cases c <;> simp_all [classLevel, OpClass.holds, isRegKind, isRegKindSize, isMSize]
+
+theorem holds_mem_congr (c : OpClass) (h : classLevel c = true) (m m' : Operand)
+    (hm : plainAddr m = true) (hm' : plainAddr m' = true) : c.holds m = c.holds m' := by
+  cases m <;> cases m' <;> simp [plainAddr] at hm hm'
+  rename_i b i _ _ _ b' i' _ _ _
+  cases i <;> cases i' <;> simp at hm hm'
+  cases c <;> simp_all [classLevel, OpClass.holds, isRegKind, isRegKindSize, isMSize]
+
+theorem find?_congr' {α} (p q : α → Bool) : ∀ (l : List α), (∀ a ∈ l, p a = q a) → l.find? p = l.find? q := by
+  intro l
+  induction l with
+  | nil => intro _; rfl
+  | cons a l ih =>
+    intro h
+    have ha := h a (by simp)
+    simp only [List.find?_cons, ha]
+    cases q a
+    · exact ih (fun x hx => h x (by simp [hx]))
+    · rfl
+
+/-- **The decision depends on the register's class and on the address being a
+component address only**: any register of the same kind and size and any other
+component address give the same result, so the representatives of `regClasses`
+and `memReps` cover every input `Load`/`Store` can be given. -/
+theorem loadStore_class_invariant (d : Dir) (t : TypeInfo) (r r' : RegV) (m m' : Operand)
+    (hk : r.kind = r'.kind) (hs : r.size = r'.size) (hm : plainAddr m = true) (hm' : plainAddr m' = true) :
+    loadStore rows d m r t = loadStore rows d m' r' t := by
+  have hcl := List.all_eq_true.mp mov_class_level
+  have key : ∀ q ∈ rows, ∀ an bn,
+      (q.matches m (.reg r) an bn t.info = q.matches m' (.reg r') an bn t.info) ∧
+      (q.matches (.reg r) m an bn t.info = q.matches (.reg r') m' an bn t.info) := by
+    intro q hq an bn
+    have h := hcl q hq
+    simp only [Bool.and_eq_true] at h
+    cases hca : q.ca with
+    | none => rw [hca] at h; simp at h
+    | some ca =>
+      cases hcb : q.cb with
+      | none => rw [hcb] at h; simp at h
+      | some cb =>
+        rw [hca, hcb] at h
+        simp only [RRow.matches, hca, hcb, holdsOpt]
+        rw [holds_mem_congr ca h.1 m m' hm hm', holds_reg_congr cb h.2 r r' hk hs,
+            holds_reg_congr ca h.1 r r' hk hs, holds_mem_congr cb h.2 m m' hm hm']
+        exact ⟨rfl, rfl⟩
+  cases d with
+  | load =>
+    simp only [loadStore, deduce, hs]
+    rw [find?_congr' _ _ rows (fun q hq => (key q hq t.size r'.size).1)]
+  | store =>
+    simp only [loadStore, deduce, hs]
+    rw [find?_congr' _ _ rows (fun q hq => (key q hq r'.size t.size).2)]
 
 /-- non-vacuity: a sign-extending load is selected and judged -/
 example : loadStore rows .load mFP ⟨kindGP, 4, 257, 7, nV⟩ ⟨0x696e743804467285d3, 2, 1⟩ = some oMOVBLSX := by
